@@ -299,6 +299,10 @@ class Exec:
             return k(p)
         if isinstance(tgt, ast.Attribute):
             def go(p2, base):
+                if isinstance(base, QName):
+                    # store to a class / module attribute: shared state
+                    p2.effects.append(("store-global", base.q + "." + tgt.attr, v, tgt.lineno))
+                    return k(p2)
                 if not isinstance(base, PyObj):
                     raise OutOfSubset("attribute store on non-object line %d" % tgt.lineno)
                 p2.heap[base.oid]["attrs"][tgt.attr] = v
@@ -487,7 +491,29 @@ class Exec:
         if e.id in self.mod.consts:
             # a module-level binding: immutable constants only (a mutable module-level object is shared state)
             c = self.mod.consts[e.id]
-            if isinstance(c, (ast.Dict, ast.List, ast.Set, ast.Call, ast.ListComp, ast.DictComp, ast.SetComp)):
+            if isinstance(c, ast.Call):
+                # an object constructed once at import time: a SHARED (global) object
+                key = "global:" + e.id
+                if key in p.ghost:
+                    return [(p, p.ghost[key])]
+                saved = p.env
+                p.env = {}
+                try:
+                    outs = self.expr(c, p)
+                finally:
+                    p.env = saved
+                res = []
+                for p2, v in outs:
+                    p2.env = dict(saved)
+                    if isinstance(v, PyObj):
+                        p2.heap[v.oid]["origin"] = key
+                        p2.ghost[key] = v
+                        p2.effects.append(("global-object-read", e.id, e.lineno))
+                    elif not isinstance(v, Raise):
+                        raise OutOfSubset("module-level call result %s (line %d)" % (e.id, e.lineno))
+                    res.append((p2, v))
+                return res
+            if isinstance(c, (ast.Dict, ast.List, ast.Set, ast.ListComp, ast.DictComp, ast.SetComp)):
                 p.effects.append(("global-mutable-read", e.id, e.lineno))
                 raise OutOfSubset("read of mutable module-level object %s (line %d)" % (e.id, e.lineno))
             saved = p.env
@@ -517,6 +543,8 @@ class Exec:
                     out.append((p1, QName(q)))
             elif isinstance(base, PyObj):
                 out.append((p1, self.load_attr(p1, base, e.attr)))
+            elif z3.is_expr(base) and base.sort() == Val:
+                out.append((p1, z3.Function("attr:" + e.attr, Val, Val)(base)))
             else:
                 out.append((p1, ("boundmethod", base, e.attr)))
         return out
